@@ -3,7 +3,7 @@
 SPECIFICATION Spec
 CONSTANTS
   Classes = {"g", "gb", "gi", "u", "uk"}
-  OptSets = {"default", "flatten", "keepdir", "noprod", "decompose", "tristate", "dtc", "debg"}
+  OptSets = {"default", "flatten", "keepdir", "noprod", "decompose", "tristate", "dtc"}
   FormatOps = {"indent", "flow", "keyorder", "quote", "num", "eol"}
   MaxLen = 8
   MinCompiles = 3
